@@ -7,7 +7,8 @@ import json
 from . import common as C
 
 
-def run_jobs(jobs: list, *, n_devices: int = 1, nproc: int | None = None, timeout: int = 3000):
+def run_jobs(jobs: list, *, n_devices: int = 1, nproc: int | None = None, timeout: int = 3000,
+             late_x64: bool = False):
     """Execute jobs with harness.workers.solver_worker.
 
     Returns (jobs2, traces): one entry per produced trace (a job with several injected vectors
@@ -15,6 +16,8 @@ def run_jobs(jobs: list, *, n_devices: int = 1, nproc: int | None = None, timeou
     if not jobs:
         return [], []
     nproc = max(1, min(nproc or C.NCPU, len(jobs)))
+    if late_x64:
+        nproc = len(jobs)          # 64-bit mode is process-global: one job per process
     order = list(range(len(jobs)))
     chunks = [order[i::nproc] for i in range(nproc)]
     out = [None] * len(jobs)
@@ -22,6 +25,7 @@ def run_jobs(jobs: list, *, n_devices: int = 1, nproc: int | None = None, timeou
         def work(ci):
             f = d / f"tr{ci}.json"
             p = C.run_python(["-m", "harness.workers.solver_worker"], n_devices=n_devices,
+                             extra_env={"VERIF_WORKER_NO_X64": "1"} if late_x64 else None,
                              input_json={"jobs": [jobs[j] for j in chunks[ci]], "out": str(f)},
                              cwd=str(C.VERIF), timeout=timeout)
             if p.returncode != 0 or not f.exists():
